@@ -264,10 +264,13 @@ func genC18(r *Rng, cfg GenConfig, c *HashCase, ncpu int) {
 			k -= L * len(hsFaultKinds)
 		}
 	}
-	if thorough && int(cfg.Idx) == cells {
-		// the 10^4 case, fifo policy to bound its cost
+	if int(cfg.Idx) == cells {
+		// the list of thousands (10^4 in the thorough tier), fifo policy to bound its cost
 		hsFill(r, c, 150, false)
-		c.Big = 10000
+		c.Big = 5000
+		if thorough {
+			c.Big = 10000
+		}
 		c.Sched = Sched{Policy: "fifo"}
 		return
 	}
